@@ -118,6 +118,7 @@ def main():
         untracked = sorted(p for p in wd if p not in index)
         return staged, unstaged, untracked
 
+    skipped_refused = [0]
     with tempfile.TemporaryDirectory() as d:
         # ---------- (a) checkout / stage round trip, (c) switches
         src = os.path.join(d, "src")
@@ -216,6 +217,56 @@ def main():
                         rr = Repo(dst)
                         for o2 in TREES:
                             rr.refs[b"refs/heads/" + o2.encode()] = commits[o2]
+                # (c2) switch with a tracked path already deleted on disk (git: a missing file never blocks a switch; a path the
+                # target lacks leaves the index, a path that is the same in both trees stays an unstaged deletion)
+                for p_, kind in [(q_, k_) for q_ in sorted(listing)[:4] for k_ in ("deleted", "replaced by a directory with an untracked file")]:
+                    for other, olisting in TREES.items():
+                        if other == name:
+                            continue
+                        cases += 1
+                        fp_ = os.path.join(os.fsencode(dst), p_)
+                        try:
+                            os.remove(fp_)
+                            if kind != "deleted":
+                                os.mkdir(fp_)
+                                open(os.path.join(fp_, b"untracked-inner"), "wb").write(b"u\n")
+                            try:
+                                porcelain.checkout(rr, other.encode())
+                            except Exception as e_:  # noqa: BLE001
+                                # refusing (CheckoutError, or NotTreeError from the conflict pre-check when a directory of the
+                                # deleted path is a file in the target) is safe as long as nothing was touched; not a violation
+                                skipped_refused[0] += 1
+                                left = dict(listing)
+                                del left[p_]
+                                if kind != "deleted":
+                                    left[p_ + b"/untracked-inner"] = (F, b"u\n")
+                                if wd_listing(dst) != left or rr.open_index().commit(rr.object_store) != rr[commits[name]].tree:
+                                    fail("branch switch with a locally removed path raised and left a partly updated work tree / index", {"from": name, "to": other, "path": p_.decode("latin-1"), "local_edit": kind, "exc": repr(e_)[:200]})
+                            else:
+                                if rr.open_index().commit(rr.object_store) != rr[commits[other]].tree:
+                                    fail("branch switch with a locally removed path: the index does not reproduce the target tree", {"from": name, "to": other, "path": p_.decode("latin-1"), "local_edit": kind, "index": show(index_listing(rr))})
+                                staged, unstaged, untracked = status_sets(rr)
+                                want_unstaged = [p_] if olisting.get(p_) == listing[p_] else []
+                                if staged != {"add": [], "delete": [], "modify": []} or unstaged != want_unstaged:
+                                    fail("branch switch with a locally removed path: status afterwards is wrong", {"from": name, "to": other, "path": p_.decode("latin-1"), "local_edit": kind, "status": repr((staged, unstaged, untracked))[:300], "want_unstaged": [x.decode("latin-1") for x in want_unstaged]})
+                            if kind != "deleted" and os.path.isdir(fp_) and not os.path.islink(fp_) and os.path.exists(os.path.join(fp_, b"untracked-inner")):
+                                os.remove(os.path.join(fp_, b"untracked-inner"))
+                                if not os.listdir(fp_):
+                                    os.rmdir(fp_)
+                            porcelain.reset(rr, "hard")
+                            porcelain.checkout(rr, name.encode())
+                            porcelain.reset(rr, "hard")
+                            if wd_listing(dst) != listing:
+                                raise RuntimeError("could not restore the starting tree")
+                        except Exception as e:  # noqa: BLE001
+                            if "could not restore" not in repr(e):
+                                fail("branch switch with a locally removed path raised", {"from": name, "to": other, "path": p_.decode("latin-1"), "local_edit": kind, "exc": repr(e)[:300]})
+                            rr.close()
+                            shutil.rmtree(dst, ignore_errors=True)
+                            porcelain.clone(src, dst, checkout=True, branch=name.encode(), errstream=NULL)
+                            rr = Repo(dst)
+                            for o2 in TREES:
+                                rr.refs[b"refs/heads/" + o2.encode()] = commits[o2]
                 rr.close()
             except Exception as e:  # noqa: BLE001
                 fail("checkout raised", {"tree": name, "exc": repr(e)[:300]})
@@ -292,7 +343,31 @@ def main():
             if os.path.isdir(p) and not os.path.islink(p):
                 shutil.rmtree(p)
                 open(p, "wb").write(b"now a file\n")
-        EDITS = [E_modify_same, E_modify_size, E_chmod_x, E_chmod_nox, E_delete, E_untracked, E_file_to_link, E_link_to_file, E_file_to_dir, E_stage_all, E_rm_cached, E_unstage_a, E_dir_to_file]
+        def E_link_same_blob(root, rr):
+            # a regular file replaced by a symlink whose target text is the old content: same blob id, different mode
+            p = os.path.join(os.fsencode(root), b"a")
+            if plain(p):
+                content = open(p, "rb").read()
+                if content and b"\0" not in content:
+                    os.remove(p)
+                    os.symlink(content, p)
+
+        def E_stage_a(root, rr):
+            # "git add a": an explicitly named path is staged as it is on disk (mode and content)
+            p = os.path.join(root, "a")
+            if os.path.lexists(p) and not (os.path.isdir(p) and not os.path.islink(p)):
+                porcelain.add(rr, paths=[p])
+                got, wd = index_listing(rr), wd_listing(root)
+                if got.get(b"a") != wd.get(b"a"):
+                    raise AssertionError(f"after staging 'a' explicitly the index entry {got.get(b'a')} differs from the file {wd.get(b'a')}")
+
+        def E_reset_mixed(root, rr):
+            # "git reset" (mixed): the index becomes the HEAD tree again, mode and type included
+            porcelain.reset(rr, "mixed", "HEAD")
+            got = index_listing(rr)
+            if got != base:
+                raise AssertionError(f"after reset --mixed the index differs from HEAD: {sorted(p for p in set(got) | set(base) if got.get(p) != base.get(p))}")
+        EDITS = [E_link_same_blob, E_stage_a, E_reset_mixed, E_modify_same, E_modify_size, E_chmod_x, E_chmod_nox, E_delete, E_untracked, E_file_to_link, E_link_to_file, E_file_to_dir, E_stage_all, E_rm_cached, E_unstage_a, E_dir_to_file]
         K = 2 if tier == "quick" else 3
         seqs = [s for k in range(1, K + 1) for s in itertools.product(range(len(EDITS)), repeat=k)]
         if tier == "thorough":
@@ -302,6 +377,9 @@ def main():
         seqs += [tuple(ix[n] for n in names) for names in (
             ("E_modify_same", "E_stage_all", "E_unstage_a"), ("E_modify_same", "E_stage_all", "E_unstage_a", "E_stage_all"),
             ("E_file_to_link", "E_stage_all", "E_unstage_a"), ("E_chmod_x", "E_stage_all", "E_unstage_a"),
+            ("E_chmod_x", "E_stage_a", "E_reset_mixed"), ("E_link_same_blob", "E_stage_all", "E_reset_mixed"), ("E_link_same_blob", "E_stage_a", "E_reset_mixed"),
+            ("E_modify_same", "E_stage_all", "E_reset_mixed"), ("E_file_to_dir", "E_stage_all", "E_reset_mixed"), ("E_dir_to_file", "E_stage_all", "E_reset_mixed"),
+            ("E_delete", "E_stage_all", "E_reset_mixed", "E_stage_all"), ("E_rm_cached", "E_reset_mixed"),
             ("E_modify_size", "E_stage_all", "E_modify_size", "E_unstage_a"), ("E_dir_to_file", "E_stage_all", "E_untracked"),
             ("E_delete", "E_stage_all", "E_untracked", "E_stage_all"), ("E_file_to_dir", "E_stage_all", "E_delete", "E_stage_all"))]
         tmpl = os.path.join(d, "tmpl")
@@ -358,7 +436,8 @@ def main():
     print("\n" + json.dumps({"name": "c18_worktree", "function": "dulwich/index.py build_index_from_tree/update_working_tree/get_unstaged_changes, porcelain.status/checkout/add/clone",
                       "cases": cases, "exhaustive": True,
                       "bound": f"{len(TREES)} trees (files, empty, binary, non-UTF-8 and quoted names, executables, symlinks, nesting, file/dir/link type swaps): checkout + all ordered "
-                      f"branch switches; all sequences of <= {K} of {len(EDITS)} edits on the base tree with status checked after every edit"
+                      f"branch switches, and the same switches with one of the first 4 tracked paths deleted on disk / replaced by a directory holding an untracked file ({skipped_refused[0]} refused by dulwich and left untouched: skipped); "
+                      f"all sequences of <= {K} of {len(EDITS)} edits on the base tree with status checked after every edit"
                       + ("; git 2.39 status cross-check on every 4th sequence" if tier == "thorough" else ""),
                       "failures": failures, "secs": round(time.time() - t0, 2)}))
 
